@@ -369,6 +369,7 @@ def oracles(sc, ctl, deadlock, prof):
             if rec["op"][0] == "EXEC":
                 bad("C14", "exec_jobs raised %s" % res[1])
                 bad("C15", "exec_jobs raised %s" % res[1])
+                bad("C04", "exec_jobs raised %s instead of returning the number of callbacks it invoked" % res[1])
             elif rec["op"][0] == "DEL" and res[1] == "SchedulerError":
                 pass
             elif res[1] != "SchedulerError" and top:
@@ -388,10 +389,12 @@ def oracles(sc, ctl, deadlock, prof):
             bad("C16", "a job was selected twice by one exec_jobs call: %s" % batch)
         if rec["res"][1] != len(batch):
             bad("C16", "exec_jobs returned %d for a batch of %d" % (rec["res"][1], len(batch)))
+            bad("C04", "exec_jobs returned %d for a batch of %d" % (rec["res"][1], len(batch)))
         if len(execs) == 1:
             runs = [d[0] for th, k, d in seg if k == "run"]
             if sorted(runs) != sorted(batch):
                 bad("C16", "batch %s but callbacks run inside the call: %s" % (sorted(batch), sorted(runs)))
+                bad("C04", "batch %s but callbacks run inside the call: %s" % (sorted(batch), sorted(runs)))
             later = [d[0] for th, k, d in ctl.log[rec["end"] + 1:] if k == "run"]
             if later:
                 bad("C16", "callbacks %s were still running after exec_jobs returned" % later)
